@@ -117,7 +117,8 @@ def carriers(rng, bits, n, talker_table=TALKERS):
         if tagged:
             # (free text in a tag block may be any UTF-8: Latin-1, Greek, CJK station names)
             txt = rng.choice([b'', b'', b',t:G\xc3\xb6teborg', b',t:\xce\xa0\xce\xb5\xce\xb9\xcf\x81\xce\xb1\xce\xb9\xce\xac\xcf\x82',
-                              b',t:\xe6\xb8\xaf'])
+                              b',t:\xe6\xb8\xaf', b',t:Hello World', b',t:a\tb', b',T:2015-03-11 00.00.01',
+                              b',i:<T>A:12344 F:+30000</T>'])
             lines = [gen.tag_block(b's:st%d,c:%d' % (i, 1600000000 + i) + txt) + l for i, l in enumerate(lines)]
         out.append(('%s chan=%r seq=%r parts=%d perm=%s trailer=%r tag=%s' % (talker, chan, seq, len(lines), perm,
                                                                               trailer, tagged), lines))
